@@ -234,7 +234,15 @@ Fixpoint replay_hdr (i : Z) (s : state) (l : list (block * outcome * dump * list
           end
       end
   end.
+Definition is_some {A} (o : option A) : bool := match o with Some _ => true | None => false end.
+(* start-up: the model's start_node succeeds exactly when the node's Init did *)
+Definition start_matches (g : block) (a : bool * bool * bool) : bool :=
+  let '(sigok, started, _) := a in
+  Bool.eqb started
+    (is_some (start_node (mkBlock (b_head g) (b_hash g) (b_body_actual g) sigok (b_txns g)))).
 Definition replay_hdr_mism (h : history) : list Z :=
   let s0 := with_xor (init_state (hi_genesis h)) (d_xor (hi_d0 h)) in
-  if head_matches s0 (hi_d0 h) then replay_hdr 1 s0 (hi_steps h) else [0].
+  if head_matches s0 (hi_d0 h) && forallb (start_matches (hi_genesis h)) (hi_starts h) &&
+     is_some (start_node (hi_genesis h))
+  then replay_hdr 1 s0 (hi_steps h) else [0].
 
